@@ -1,22 +1,24 @@
 #!/bin/bash
-# confirm_seed.sh <worktree> <id>   (worktree has the change applied and the demo test in place)
+# confirm_seed.sh <worktree> <id>   (worktree has the change applied and the demo test(s) in place)
 # Confirms independently: demo fails with the change, passes without it, suite passes with it.
 # Writes <worktree>/seeded/confirm.json and copies the deliverables to /verif/seeded/<id>/.
 WT=$1; ID=$2
 cd "$WT" || exit 2
 export CARGO_NET_OFFLINE=true CARGO_TARGET_DIR=$WT/target
-DEMO_TEST=$(ls rustzx-test/tests/seeded_demo.rs 2>/dev/null)
+DEMOS=$(git status --short | grep '^??' | awk '{print $2}' | grep -E 'tests/seeded_demo[a-z_]*\.rs$')
 run_demo() {
-  if [ -n "$DEMO_TEST" ]; then cargo test -j 4 --offline -p rustzx-test --test seeded_demo 2>&1 | tail -n 30
-  else cargo test -j 4 --offline --workspace seeded 2>&1 | tail -n 30; fi
+  for d in $DEMOS; do
+    pkg=$(echo $d | cut -d/ -f1); t=$(basename $d .rs)
+    cargo test -j 4 --offline -p $pkg --test $t 2>&1 | tail -n 30
+  done
 }
 with=$(run_demo); echo "$with" | grep -q "test result: FAILED" && W=fails || W=passes
 git diff > /tmp/confirm.$ID.patch; git apply -R /tmp/confirm.$ID.patch
 without=$(run_demo); echo "$without" | grep -q "test result: ok" && ! echo "$without" | grep -q "test result: FAILED" && WO=passes || WO=fails
 git apply /tmp/confirm.$ID.patch
-[ -n "$DEMO_TEST" ] && mv "$DEMO_TEST" /tmp/seeded_demo.$ID.rs
+mkdir -p /tmp/seeded_demo.$ID; for d in $DEMOS; do mv $d /tmp/seeded_demo.$ID/$(echo $d | tr / _); done
 suite=$(cargo test -j 6 --offline --workspace --no-fail-fast 2>&1 | grep -E "^test " | grep -v seeded)
-[ -n "$DEMO_TEST" ] && mv /tmp/seeded_demo.$ID.rs "$DEMO_TEST"
+for d in $DEMOS; do mv /tmp/seeded_demo.$ID/$(echo $d | tr / _) $d; done
 np=$(echo "$suite" | grep -c " ok$"); nf=$(echo "$suite" | grep -c "FAILED")
-echo "{\"id\":\"$ID\",\"demo_with_change\":\"$W\",\"demo_without_change\":\"$WO\",\"suite_passed\":$np,\"suite_failed\":$nf}" | tee seeded/confirm.json
-mkdir -p /verif/seeded/$ID && cp seeded/patch.diff seeded/demo.rs seeded/meta.json seeded/confirm.json /verif/seeded/$ID/
+echo "{\"id\":\"$ID\",\"demo_with_change\":\"$W\",\"demo_without_change\":\"$WO\",\"suite_passed\":$np,\"suite_failed\":$nf,\"demos\":\"$(echo $DEMOS | tr '\n' ' ')\"}" | tee seeded/confirm.json
+mkdir -p /verif/seeded/$ID && cp seeded/*.diff seeded/*.rs seeded/meta.json seeded/confirm.json /verif/seeded/$ID/
